@@ -5039,6 +5039,10 @@ class PyCdlib:
             file_mode = 0o040555
 
         # Make sure every one of the paths can be added before adding any.
+        for path in (iso_path, joliet_path, udf_path):
+            if path is not None and not path:
+                raise pycdlibexception.PyCdlibInvalidInput('Must be a path starting with /')
+
         self._check_new_paths(iso_path, rr_name, joliet_path, udf_path, True)
 
         num_bytes_to_add = 0
@@ -5703,6 +5707,10 @@ class PyCdlib:
         if joliet_path is not None and self.joliet_vd is None:
             # Rule 9
             raise pycdlibexception.PyCdlibInvalidInput('A Joliet path can only be specified for a Joliet ISO')
+
+        for path in (symlink_path, joliet_path, udf_symlink_path):
+            if path is not None and not path:
+                raise pycdlibexception.PyCdlibInvalidInput('Must be a path starting with /')
 
         # Make sure every one of the paths can be added before adding any.
         self._check_new_paths(symlink_path, rr_symlink_name or '', joliet_path,
